@@ -1,4 +1,4 @@
-\* trace validation of recorded parallel executions (see OrdaSyncTrace.tla)
+\* trace validation of LONG recorded histories (concdriver -big): the quadratic log invariants are left out, the store events compare the log itself
 SPECIFICATION TraceSpec
 CONSTANTS
  Clients = {1, 2, 3, 4}
@@ -6,7 +6,7 @@ CONSTANTS
  Subscribers = {2, 3, 4}
  OtherType = {}
  MaxPre = 0
- MaxOps = 50
+ MaxOps = 100000
  MaxSends = 100000
  MaxServes = 1
  MaxApplies = 1
@@ -14,9 +14,7 @@ CONSTANTS
  KeepHist = FALSE
 INVARIANT NotAccepted
 CONSTRAINT Progress
-INVARIANT LogNoRepeats
 INVARIANT LogEndRecorded
-INVARIANT PerClientOrder
 INVARIANT CpWithinLog
 VIEW TraceView
 CHECK_DEADLOCK FALSE
